@@ -27,6 +27,8 @@ statistics(ColumnChunk) - the ThriftObject is a proof-script object:
     statistics.max_from_max_else_max_value / min_from_min_else_min_value   rv['max'] is decoded from s.max when that is set,
          else from s.max_value when that is set, else the key is absent; never from a min field (and symmetrically);
          decoded = the raw bytes for BYTE_ARRAY, else encoding.read_plain(bytes, md.type, 1, stat=True)[0]; None if decoding raises
+    statistics.{max,min,null_count,distinct_count}_present_iff_field_not_None   the key is there exactly when the field (for the bounds:
+         either of the two fields) is not None - the field's VALUE is arbitrary, in particular the falsy b'' / 0
     statistics.null_count_copied / distinct_count_copied / no_other_keys / empty_when_no_statistics
 """
 import ast
@@ -955,15 +957,23 @@ def check_sorted(ctx, funcs, timeout):
 # =================================================================================================
 FIELDS = ("max", "max_value", "min", "min_value", "null_count", "distinct_count")
 ABSENT = {f: z3.Bool(f"s_{f}_is_None") for f in FIELDS}
+FALSY = {f: z3.Bool(f"s_{f}_is_empty_bytes_or_zero") for f in FIELDS}       # present but b'' (bounds) / 0 (counts)
 IS_BA = z3.Bool("md_type_is_BYTE_ARRAY")
 HAS_STATS = z3.Bool("statistics_present_and_truthy")
 
 
 class Field(H):
-    """the value of s.<name> (when not None)"""
+    """the value of s.<name> (when not None): an ARBITRARY bytes object (max / min / max_value / min_value) or int (the counts) -
+    in particular possibly b'' / 0, which are falsy without being None"""
 
     def __init__(self, name):
         self.name = name
+
+    def truth(self, eng, p):
+        return z3.Not(FALSY[self.name])
+
+    def is_none(self, eng, p):
+        return z3.BoolVal(False)
 
 
 class Decoded(H):
@@ -1063,7 +1073,8 @@ def check_statistics(ctx, funcs, timeout):
     n_ret = 0
 
     def mf(m):
-        return {k: backends.model_value(m, v) for k, v in list((f"s.{f} is None", ABSENT[f]) for f in FIELDS) + [("BYTE_ARRAY", IS_BA), ("statistics truthy", HAS_STATS)]}
+        return {k: backends.model_value(m, v) for k, v in list((f"s.{f} is None", ABSENT[f]) for f in FIELDS) +
+                list((f"s.{f} is b'' / 0", FALSY[f]) for f in FIELDS) + [("BYTE_ARRAY", IS_BA), ("statistics truthy", HAS_STATS)]}
     for q in outs:
         if q.ctl[0] != "ret":
             res.add("statistics.does_not_raise", REFUTED, {"raises": q.ctl[1]}, 0.0, "trace", "decoding errors are caught; statistics() does not raise")
@@ -1099,11 +1110,19 @@ def check_statistics(ctx, funcs, timeout):
             else:
                 g = z3.Or(z3.Not(HAS_STATS), ABSENT[K])
             goals[f"{K}_copied"] = g
+        for K in ("max", "min"):
+            goals[f"{K}_present_iff_field_not_None"] = z3.BoolVal(K in items) == z3.And(HAS_STATS, z3.Or(z3.Not(ABSENT[K]), z3.Not(ABSENT[K + "_value"])))
+        for K in ("null_count", "distinct_count"):
+            goals[f"{K}_present_iff_field_not_None"] = z3.BoolVal(K in items) == z3.And(HAS_STATS, z3.Not(ABSENT[K]))
         goals["no_other_keys"] = z3.BoolVal(set(items) <= {"max", "min", "null_count", "distinct_count"} and len(items) == len(rv.h.items(q)))
         details = {"max_from_max_else_max_value": "rv['max'] decoded (with the column's type) from s.max if set, else from s.max_value if set, else absent; None only if decoding raised",
                    "min_from_min_else_min_value": "rv['min'] decoded from s.min if set, else from s.min_value if set, else absent (never from a max field)",
                    "null_count_copied": "rv['null_count'] is s.null_count iff that is not None",
                    "distinct_count_copied": "rv['distinct_count'] is s.distinct_count iff that is not None",
+                   "max_present_iff_field_not_None": "'max' in rv  <=>  s.max or s.max_value is not None - for ANY bytes value, including the empty string b''",
+                   "min_present_iff_field_not_None": "'min' in rv  <=>  s.min or s.min_value is not None - for ANY bytes value, including the empty string b'' (minimum of a str column)",
+                   "null_count_present_iff_field_not_None": "'null_count' in rv <=> s.null_count is not None (0 is a count, not an absence)",
+                   "distinct_count_present_iff_field_not_None": "'distinct_count' in rv <=> s.distinct_count is not None",
                    "no_other_keys": "no key besides max / min / null_count / distinct_count",
                    "empty_when_no_statistics": "no statistics object => {}"}
         for nm, g in goals.items():
